@@ -48,6 +48,21 @@ META = {
  "C15": ("TLC: MC_WordInit exhaustive at widths 3 and 4 (all masks, all completions) + TLC table validation of the real Word operators at 16 bits with TLC-enumerated completions",
          "The propagation rules of spec/WordInit.tla are model-checked exhaustively at reduced widths (every operand pair, mask and completion); the real 16-bit operators are recorded through the mask hooks and TLC decides soundness by enumerating all completions of pairs with few unknown bits and by witnesses (unknown bits re-drawn through the real operators) for arbitrary masks; fully initialized operands must give the wrapping value with a full mask.",
          "Needs the Word::verif_mask / verif_from_parts hooks. The rules are width-uniform, which is what connects the reduced-width proof to 16 bits.", "5 (C15)"),
+ "C10": ("TLC: IntGate on every logged step + relational check interrupted vs. uninterrupted run (TV_Pairs 'transparent'), interrupt placements enumerated over all boundaries",
+         "Interrupt placements are enumerated over the instruction boundaries of a program (single placements exhaustively, pairs competing/nested/successive, keyboard and timer interrupts) and replayed on the real simulator with harness interrupt devices; TLC evaluates IntGate on each step (priority gate, winner, mode, saved PSR/PC, vector) and compares each interrupted run with the uninterrupted one on registers, condition codes, R6, user memory and output.",
+         "Quick tier places single interrupts at every third boundary; thorough at every boundary.", "5 (C10)"),
+ "C11": ("TLC evaluates the trap contracts on its validated state after the real OS routine ran step by step (TV_Machine mark/trapdone)",
+         "The real OS image executes each trap routine step by step under trace validation; at its return TLC evaluates the contract (consumed input, emitted bytes computed from the string in memory, R0, other registers, PSR, saved SP, all user memory) on the specification state, which by validation equals the real machine.",
+         "Emitted bytes for PUTS/PUTSP are computed by TLC from memory at the mark; strings up to 12 words.", "5 (C11)"),
+ "C12": ("TLC relational check of final states of virtual-trap vs. real-trap runs of the same program (TV_Pairs 'trapmode')",
+         "The same user program is run to completion under virtual and real traps; TLC checks the relation the property states on the two logged final states (output, R0-R5, user-memory digest, halt through MCR; exception message appended for faulting programs).",
+         "User memory is compared by a 60-bit digest over x3000-xFDFF computed by the harness.", "5 (C12)"),
+ "C32": ("TLC trace validation of device-table histories against the port-table model in Machine (dispatch, ownership, ids, register-device contents)",
+         "Every call of random histories over the device table and internal-register map is validated by TLC: add succeeds iff all ports are free I/O addresses, ids increase and are never reused, remove frees non-fixed ports, reads/writes reach the mapped internal register, else the owning device, else nothing; register devices' contents and the memory mirror are compared after each call.",
+         "Bounded-exhaustive enumeration of histories by TLC (RP) is not built; histories are random.", "5 (C32)"),
+ "C33": ("TLC trace validation of echo runs under enumerated lock-holding patterns; end-of-run delivery check; deviations named in the spec map to known findings",
+         "The harness holds the real RwLock across chosen step_in calls (every single position, pairs, random patterns); TLC validates each step with the lock state as environment and at the end requires the display to show every queued byte once and in order. The two try_write deviations are modelled as named effects; losses they explain are KNOWN-FINDING, any other loss is a VIOLATION.",
+         "Granularity = instruction boundaries; the two known findings are not fixed (a blocking lock is not a safe patch).", "5 (C33)"),
  "C34": ("TLC: MC_Timer (timer design vs. observer automaton TimerProp, all ranges/draws/interleavings within 1..4) + TLC trace validation of real TimerDevice poll sequences and same-seed pairs",
          "TimerProp is an observer automaton for the property (gaps within range, first interrupt at most max+1 polls after enable/reset, none while disabled). MC_Timer explores the timer design of spec/Machine.tla against it; real TimerDevice poll sequences with toggles, resets and range changes are validated by TLC with the automaton on the logged fire sequence, pairs with equal seeds must be identical, and in-simulator runs validate each timer interrupt entry.",
          "A remaining time drawn under an earlier range is not judged (property: while its range is unchanged).", "5 (C34)"),
